@@ -207,12 +207,12 @@ class GenFacts:
             return None
         return role if not rest else None
 
-    def layout(self, variable_defeat=True):
+    def layout(self, variable_defeat=True, stack_size=7):
         """The lines CodeGen.gen_lines writes for a small synthetic compilation state (two entry arguments, two state
         and two const data items, two strings, two generated functions), obtained by interpreting gen_lines - the
         method only formats state, whatever helpers it is split into.  Returns the list of bytes lines."""
         cache = self.repo.__dict__.setdefault('_layout', {})
-        if variable_defeat not in cache:
+        if (variable_defeat, stack_size) not in cache:
             ns = self.module_ns()
             CG, asm = ns.get('CodeGen'), ns.get('asm')
             L, IL = asm.LabelRef, asm.IntLiteral
@@ -220,7 +220,7 @@ class GenFacts:
                 g = new_codegen(CG)
                 g.argv_specs = [b'x word']
                 g.word_size = 2
-                g.stack_size = 7
+                g.stack_size = stack_size
                 g.entry_args = [asm.WordDirective(IL(101)), asm.WordDirective(IL(102))]
                 g.state_data = {L('s_b'): asm.ByteDirective(IL(5)), L('s_a'): asm.WordDirective(IL(9), IL(8))}
                 g.needs_variable_defeat = variable_defeat
@@ -233,8 +233,8 @@ class GenFacts:
                 raise
             except Exception as e:      # noqa: BLE001
                 raise AnalysisError(f'cannot interpret CodeGen.gen_lines: {type(e).__name__}: {e}')
-            cache[variable_defeat] = lines
-        return cache[variable_defeat]
+            cache[(variable_defeat, stack_size)] = lines
+        return cache[(variable_defeat, stack_size)]
 
     def module_ns(self):
         """Namespace of generator.py, interpreted (never imported); cached per repository."""
